@@ -435,11 +435,19 @@ static int dispatch(TcpAsyncCtx *tcpCtx) {
 		/* Verify that the send timeout has not elapsed. */
 		if (tcpCtx->parent->options[KSI_ASYNC_OPT_SND_TIMEOUT] == 0 ||
 			(difftime(curTime, req->reqTime) > tcpCtx->parent->options[KSI_ASYNC_OPT_SND_TIMEOUT])) {
+			bool partiallySent = (req->sentCount > 0);
 			/* Set error. */
 			req->state = KSI_ASYNC_STATE_ERROR;
 			req->err = KSI_NETWORK_SEND_TIMEOUT;
 			/* Just remove the request from the request queue. */
 			KSI_AsyncHandleList_remove(tcpCtx->reqQueue, 0, NULL);
+			if (partiallySent) {
+				/* A part of the request is already on the wire: the stream can not be continued with another request. */
+				KSI_LOG_debug(tcpCtx->ctx, "[%p] Async TCP closing connection. Send timeout on a partially sent request.", tcpCtx);
+				closeSocket(tcpCtx, __LINE__);
+				res = KSI_ASYNC_CONNECTION_CLOSED;
+				goto cleanup;
+			}
 			continue;
 		}
 
